@@ -567,7 +567,10 @@ def make_builtins(interp):
         if isinstance(x, (list, tuple, str, SymDict, SymSet, dict, ParamsView)):
             return len(x)
         if isinstance(x, I.Inst):
-            return len(x)
+            try:
+                return len(x)
+            except TypeError:
+                raise PyExc(TypeError, ('object has no len()',))
         if hasattr(x, '_vf_len'):
             return x._vf_len(interp)
         raise PyExc(TypeError, ('object of type %r has no len()' % type(x).__name__,))
